@@ -26,8 +26,8 @@ BUDGET = {'quick': 2400, 'thorough': 64000}
 
 PROFILE = {
     'weights': {'restart': 3, 'reboot': 3, 'down': 3, 'up': 3, 'resize': 2,
-                'idg': 2, 'rm': 3, 'renew': 3, 'adv': 3, 'prio': 4, 'rmlast': 3, 'downseq': 4, 'freezeflip': 1},
-    'force': ['restart', 'downseq'],
+                'idg': 2, 'rm': 3, 'renew': 3, 'adv': 3, 'prio': 4, 'rmlast': 3, 'downseq': 4, 'freezeflip': 1, 'rmsrvrace': 3},
+    'force': ['restart', 'downseq', 'rmsrvrace'],
     'min_servers': 2,
 }
 
